@@ -14,12 +14,24 @@ template <class T> struct Job {
     void (*eager)(void* D, const void* A, const void* B, const void* C);
 };
 
-template <class T> static void fill_dd(T* m, size_t n, unsigned salt) {   // strictly diagonally dominant, distinct non-zero entries
-    for (size_t i = 0; i < n; ++i) for (size_t k = 0; k < n; ++k) {
-        double off = (double)((int)((i * 3 + k * 5 + salt * 7) % 7) - 3); if (off == 0) off = 0.5;
+template <class T> static void fill_dd(T* m, size_t n, unsigned salt) {   // strictly diagonally dominant, non-zero entries; salt moves both the
+    for (size_t i = 0; i < n; ++i) for (size_t k = 0; k < n; ++k) {          // diagonal and the off-diagonal pattern (salt * 2 is not a multiple of the period 7)
+        double off = (double)((int)((i * 3 + k * 5 + salt * 2) % 7) - 3); if (off == 0) off = 0.5;
         m[i * n + k] = (T)(i == k ? (double)(4 * n + 2 + (i + salt) % 3) : off * 0.75);
     }
 }
+
+// Conditioning of a statement on its data, measured rather than assumed: the eager spelling is re-run on operands (and destination) whose
+// entries are moved by +-16u, and by +-64u, relative in four fixed sign patterns each.  sens[i] = largest change of element i under +-16u.
+// Two backward-stable evaluations of the statement may differ by that much, so it widens the bound.  An element is ill-conditioned - has no
+// correct digit in any evaluation, and is not judged (ill[i]) - when such perturbations move it by a quarter of its value or more and the
+// response has saturated (four times the perturbation moves it less than twice as far: v = d / x with x rounding noise goes from v to
+// "much smaller than v" under either), or when it stops being finite.  A benign cancellation such as (x - x) * c responds linearly and stays judged.
+template <class T> static inline T nudged(T v, size_t idx, unsigned op, unsigned pat, long double eps) {
+    uint64_t h = (uint64_t)(idx + 1) * 0x9E3779B97F4A7C15ull + (uint64_t)(op + 1) * 0xC2B2AE3D27D4EB4Full; h ^= h >> 29; h *= 0xBF58476D1CE4E5B9ull; h ^= h >> 32;
+    return (T)((long double)v * (1.0L + (((h >> pat) & 1) ? eps : -eps)));
+}
+template <class T> static inline bool finite_(T v) { return v == v && !std::isinf((double)v); }
 
 template <class T> static FX_NOINLINE void run_job(fx::Ctx& fx, const Job<T>& j) {
     const size_t n = j.n, nn = n * n;
@@ -28,10 +40,10 @@ template <class T> static FX_NOINLINE void run_job(fx::Ctx& fx, const Job<T>& j)
     const size_t stride = (j.sizeofM + 63) / 64 * 64 + 64;
     T *A = (T*)base, *B = (T*)(base + stride), *C = (T*)(base + 2 * stride);
     unsigned char* dp = fx.arena[0].place_mid(j.sizeofM, 64); T* D = (T*)dp;
-    std::vector<T> d0(nn), dl(nn), de(nn);
+    std::vector<T> d0(nn), dl(nn), de(nn), a0(nn), b0(nn), c0(nn);
     const long double u = fxv::unit_roundoff<T>::v();
     for (unsigned variant = 0; variant < 3; ++variant) {
-        fill_dd(A, n, 1 + variant); fill_dd(B, n, 2 + variant * 2); fill_dd(C, n, 3 + variant);
+        fill_dd(A, n, 1 + variant); fill_dd(B, n, 2 + variant * 2); fill_dd(C, n, 5 + variant * 3);   // salts distinct mod 7 within a variant: A, B, C differ
         for (size_t i = 0; i < nn; ++i) d0[i] = (T)(1.5 + (double)((i * 7 + variant) % 5) * 0.5) * ((i + variant) % 3 == 0 ? -1 : 1);
         if (variant == 2) for (size_t i = 0; i < nn; ++i) C[i] = -C[i];
         fx.pt("data=%lld", (long long)variant);
@@ -45,11 +57,44 @@ template <class T> static FX_NOINLINE void run_job(fx::Ctx& fx, const Job<T>& j)
         memcpy(dl.data(), D, nn * sizeof(T));
         frame_ok = fx.frame(0, dp, j.sizeofM, "lazy statement wrote outside the destination") && frame_ok;
         memset(dp, fx::Arena::CAN, j.sizeofM);
+        // measured sensitivity of the eager result (see above)
+        std::vector<long double> sens(nn, 0.0L), sens4(nn, 0.0L); std::vector<char> any_nonfin(nn, 0);   // sens: +-16u, sens4: +-64u; non-finite under a perturbation
+        memcpy(a0.data(), A, nn * sizeof(T)); memcpy(b0.data(), B, nn * sizeof(T)); memcpy(c0.data(), C, nn * sizeof(T));
+        for (unsigned pat = 0; pat < 8; ++pat) {
+            const long double eps = (pat < 4 ? 16.0L : 64.0L) * u; std::vector<long double>& sv = pat < 4 ? sens : sens4;
+            for (size_t i = 0; i < nn; ++i) { A[i] = nudged(a0[i], i, 0, pat & 3, eps); B[i] = nudged(b0[i], i, 1, pat & 3, eps); C[i] = nudged(c0[i], i, 2, pat & 3, eps); D[i] = nudged(d0[i], i, 3, pat & 3, eps); }
+            fx.pt("data=%lld,perturbation=%lld", (long long)variant, (long long)pat);
+            const bool ran = fx.run([&] { j.eager(dp, A, B, C); });
+            if (ran) for (size_t i = 0; i < nn; ++i) {
+                if (!finite_(D[i])) { any_nonfin[i] = 1; continue; }
+                if (finite_(de[i])) { long double d = fabsl((long double)D[i] - (long double)de[i]); if (d > sv[i]) sv[i] = d; }
+            }
+            memset(dp, fx::Arena::CAN, j.sizeofM);
+        }
+        memcpy(A, a0.data(), nn * sizeof(T)); memcpy(B, b0.data(), nn * sizeof(T)); memcpy(C, c0.data(), nn * sizeof(T));
+        fx.pt("data=%lld", (long long)variant);
         // bound from the data: both spellings run the same kernels on the same operands, possibly associated differently
-        long double scale = 0; for (size_t i = 0; i < nn; ++i) { long double v = fabsl((long double)de[i]); if (v == v && !std::isinf((double)de[i]) && v > scale) scale = v; }
+        // ill-conditioned: moved by a quarter of its value or more with a saturated response AND by more than the norm-wise bound at the scale
+        // of the data, or finite on the data and not finite under one of the perturbations (division by a quantity that can round to zero)
+        size_t n_ill = 0;
+        std::vector<char> ill(nn, 0);
+        for (size_t i = 0; i < nn; ++i)
+            ill[i] = finite_(de[i]) && (any_nonfin[i] || (sens[i] > 0 && sens[i] >= 0.25L * fabsl((long double)de[i]) && sens4[i] < 2.0L * sens[i]));   // a non-finite eager element (x / 0 with an exact 0) is judged as it is
+        long double scale = 0; for (size_t i = 0; i < nn; ++i) { long double v = fabsl((long double)de[i]); if (!ill[i] && finite_(de[i]) && v > scale) scale = v; }
+        long double big = scale;   // largest magnitude among the operands, the destination and the judged part of the result
+        for (size_t i = 0; i < nn; ++i) for (long double v : {fabsl((long double)a0[i]), fabsl((long double)b0[i]), fabsl((long double)c0[i]), fabsl((long double)d0[i])}) if (v > big) big = v;
+        for (size_t i = 0; i < nn; ++i) {
+            if (ill[i] && !any_nonfin[i] && !(sens[i] > 64.0L * (long double)n * u * big)) ill[i] = 0;   // e.g. x - x: judged absolutely, bound widened by 4 * sens
+            n_ill += ill[i];
+        }
         std::vector<long double> ex(nn), bd(nn);
-        for (size_t i = 0; i < nn; ++i) { ex[i] = (long double)de[i]; bd[i] = 64.0L * (long double)n * u * (scale + fabsl(ex[i])) + (long double)std::numeric_limits<T>::min(); }
+        for (size_t i = 0; i < nn; ++i) {
+            if (ill[i]) { ex[i] = (long double)dl[i]; bd[i] = std::numeric_limits<long double>::infinity(); continue; }
+            ex[i] = (long double)de[i]; bd[i] = 64.0L * (long double)n * u * (scale + fabsl(ex[i])) + 4.0L * sens[i] + (long double)std::numeric_limits<T>::min();
+        }
         fx.tol(dl.data(), ex.data(), bd.data(), nn, "lazy vs eager");
+        if (n_ill) fx.route("info.ill_conditioned_elements_not_judged", n_ill);
+        if (n_ill == nn) fx.route("info.statement_ill_conditioned_everywhere");
         // non-vacuity: the statement must have changed the destination
         if (!memcmp(de.data(), d0.data(), nn * sizeof(T))) fx.route("info.statement_left_destination_unchanged");
     }
